@@ -473,7 +473,7 @@ def geo1d(tier):
                             continue
                         if out_len(Lin, k, s, p, d) < 1:
                             continue
-                        if tier == "quick" and (Lin + k + s + p + d) % 3 != 0:
+                        if tier == "quick" and (Lin + k + s + p + d) % 2 != 0:
                             continue
                         out.append((Lin, k, s, p, d))
     return out
@@ -495,7 +495,7 @@ def geo2d(tier):
                         if out_len(H, kH, sH, pH, dH) < 1 or out_len(W, kW, sW, pW, dW) < 1:
                             continue
                         n += 1
-                        if tier == "quick" and n % 5 != 0:
+                        if tier == "quick" and n % 3 != 0:
                             continue
                         if tier != "quick" and kmax == 3 and (kH == 3 or kW == 3) and n % 3 != 0:
                             continue
